@@ -30,6 +30,8 @@ CORPUS = ["", " ", "\t ", "from a | select {b, c}", "x = true.a", "case(", "let 
           "@{a}", "@ 1", "1 .. 2", "1.. 2", "1 ..2", "a..", "..a", "a\t..\tb", "a \n b", " a", "a ", " a ", "\ta\t", "a\\b", "\\", "a\n\\", "~", "~=", "?", "&", "&&", "||", "|", "&&&",
           "|||", "&&)", "||}", "let let", "letx", "let1", "let_", "_let", "_", "__a1", "a\u0301", "\u0301"]
 
+EDGE_CHARS = ["\ufeff", "\u00a0", "\u200b", "\r", "\x0b", "\x0c", "\u0085", "\u2028", "\u3000"]
+
 VALID_POINTS = [0x2028, 0x2029, 0x3000, 0x1F600, 0xFFFD, 0x10FFFF, 0xD7FF, 0xE000, 0x200B, 0xFEFF, 0x0301]
 VALID_RANGES = [(0, 1154), (0x4E00, 0xA000), (1632, 1642), (1776, 1786)]
 
